@@ -77,8 +77,8 @@ def reload_scripts(rng, n):
         svcs = [("chal.svc", lp), ("keep.svc", rng.choice(["login", "dronecheck"]))]
         after = [svcs[1]] + ([("new.svc", "login")] if rng.random() < 0.4 else [])
         cfg = proto.Config(svcs, timeout=rng.choice([None, 3600]))
-        kind = rng.choice(["more-then-removed", "more-then-removed", "owed-answer", "two-waiters"])
-        cids = [5, 9] if kind == "two-waiters" else [5]
+        kind = rng.choice(["more-then-removed", "more-then-removed", "owed-answer", "two-waiters", "leaver-then-removed", "leaver-then-removed"])
+        cids = [5, 9] if kind in ("two-waiters", "leaver-then-removed") else [5]
         ev = []
         ser = {}
         for k, cid in enumerate(cids):
@@ -96,6 +96,23 @@ def reload_scripts(rng, n):
                 ev += [{"t": "password", "id": 5, "text": "-! acct5 pw2"}]
             ev += [{"t": "reply", "svc": n_, "tag": tag(5), "text": "OK acct5" if p_ != "dronecheck" else "OK"} for n_, p_ in after]
             ev += [{"t": "hurry", "id": 5}]
+        elif kind == "leaver-then-removed":
+            # both clients were asked; the service answers one of them, who then leaves (withdrawn, registered, or refused) - the other
+            # is still owed its answer when the reload removes the service, and gets it afterwards
+            a_, b_ = (5, 9) if rng.random() < 0.5 else (9, 5)
+            how = rng.choice(["ok-then-disconnect", "ok-then-registered", "no", "again-retry-then-ok"])
+            if how == "no":
+                ev += [{"t": "reply", "svc": "chal.svc", "tag": tag(a_), "text": "NO refused"}]
+            elif how == "again-retry-then-ok":
+                ev += [{"t": "reply", "svc": "chal.svc", "tag": tag(a_), "text": "AGAIN retry"}, {"t": "password", "id": a_, "text": "+x acct%d pw2" % a_},
+                       {"t": "reply", "svc": "chal.svc", "tag": tag(a_), "text": "OK acct%d" % a_}, {"t": "reply", "svc": "keep.svc", "tag": tag(a_), "text": "OK"},
+                       {"t": "hurry", "id": a_}, {"t": "registered", "id": a_}]
+            else:
+                ev += [{"t": "reply", "svc": "chal.svc", "tag": tag(a_), "text": "OK acct%d" % a_},
+                       {"t": "disconnect" if how == "ok-then-disconnect" else "registered", "id": a_}]
+            ev += [{"t": "reload", "services": [list(x) for x in after]},
+                   {"t": "reply", "svc": "chal.svc", "tag": tag(b_), "text": rng.choice(["OK acct%d" % b_, "OK", "NO refused %d" % b_])},
+                   {"t": "reply", "svc": "keep.svc", "tag": tag(b_), "text": "OK"}, {"t": "hurry", "id": b_}]
         else:
             ev += [{"t": "reload", "services": [list(x) for x in after]}]
             order = list(cids)
